@@ -52,6 +52,9 @@ fn c09_scenarios(tier: Tier) -> Vec<Scenario> {
         // occurrence, so the repetition bookkeeping (hashes of game + line) decides the root value
         mk("r5k1/8/8/8/8/8/8/R2Q2K1 w - - 0 1", &["a1b1", "a8b8", "b1a1", "b8a8", "a1b1", "a8b8", "b1a1"], 3),
         mk("rnbqkbnr/pppppppp/8/8/8/8/PPPPPPPP/RNBQKBNR w KQkq - 0 1", &["g1f3", "g8f6", "f3g1", "f6g8", "g1f3", "g8f6", "f3g1"], 3),
+        // a perpetual check already played once: White is lost on material unless the checks repeat, so
+        // the second return to the root position decides the value of a depth-4 search
+        mk("r4rk1/5p1p/8/4Q3/8/8/q4PPP/6K1 w - - 0 30", &["e5g5", "g8h8", "g5e5", "h8g8"], 3),
     ];
     if tier == Tier::Thorough {
         v.extend(vec![
@@ -280,6 +283,38 @@ fn c09_scenario(rep: &Reporter, sc: &Scenario, tier: Tier, stats: &C09Stats, sam
             rep.report("go_after_interruptions_scores_differently_from_fresh_engine".to_string(), case(json!({"score": format!("{:?}", again.score), "fresh": format!("{:?}", fresh1.score)})));
         }
     });
+    // (7) the position the engine holds includes the game history that came with it: after an
+    // interrupted search, a deeper follow-up search (depth 4: far enough to come back to the root
+    // position) must give what the same engine gives when the position command is sent again first —
+    // a differential oracle: both engines went through the same interrupted search, so tables and
+    // move-ordering state are identical, only the re-sent position command differs
+    if !sc.moves.is_empty() {
+        let g7 = if tier == Tier::Quick { 5 } else { 16 };
+        let grid7: Vec<u64> = (0..g7).map(|i| 1 + i * (k_max.max(1) - 1) / (g7 - 1).max(1)).collect();
+        par_map_fine(&grid7, |&k| {
+            stats.runs.fetch_add(2, Ordering::Relaxed);
+            let run = |resend: bool| -> SearchOut {
+                let mut s = Session::new(false);
+                s.line(&pos_line);
+                let _ = run_go(&mut s, &format!("go depth {}", sc.depth), Plan { poll: Some((1, n2)), clock: Clock::Rate { ns_per_node: 0, jumps: vec![] }, gates: vec![k] }, &|kk| if kk == k { vec![GateAction::Stop] } else { vec![] });
+                if resend {
+                    s.line(&pos_line);
+                }
+                let o = run_go(&mut s, "go depth 4", Plan::virtual_rate(0), &none);
+                s.quit();
+                o
+            };
+            let kept = run(false);
+            let resent = run(true);
+            if kept.problem.is_some() || resent.problem.is_some() {
+                rep.report("go_after_interruption_gives_no_answer:depth4".to_string(), json!({"kind": "interrupt_history", "position": pos_line, "depth": sc.depth, "poll_index": k, "detail": {"problems": [kept.problem, resent.problem]}}));
+                return;
+            }
+            if kept.score != resent.score {
+                rep.report("deeper_go_after_interruption_differs_from_the_same_engine_given_the_position_again".to_string(), json!({"kind": "interrupt_history", "position": pos_line, "depth": sc.depth, "poll_index": k, "detail": {"go_depth_4_without_position": format!("{:?} {:?}", kept.score, kept.best), "go_depth_4_after_resending_the_position": format!("{:?} {:?}", resent.score, resent.best)}}));
+            }
+        });
+    }
     // (6) earlier in the session, commands that belong to the idle state (position, go) arrived WHILE a
     // search was running. What the engine does with them then is its own business; but afterwards
     // the position given while idle is the position, however many searches follow.
@@ -511,6 +546,30 @@ pub fn replay_c09(case: &Value) -> i32 {
     let rep = Reporter::new("C09");
     let pos_line = case["position"].as_str().unwrap_or("position startpos").to_string();
     let depth = case["depth"].as_u64().unwrap_or(3) as usize;
+    if case["kind"] == "interrupt_history" {
+        let k = case["poll_index"].as_u64().unwrap_or(1);
+        let (n2, _) = dry_run(&pos_line, "go depth 2");
+        let run = |resend: bool| -> SearchOut {
+            let mut s = Session::new(false);
+            s.line(&pos_line);
+            let _ = run_go(&mut s, &format!("go depth {}", depth), Plan { poll: Some((1, n2)), clock: Clock::Rate { ns_per_node: 0, jumps: vec![] }, gates: vec![k] }, &|kk| if kk == k { vec![GateAction::Stop] } else { vec![] });
+            if resend {
+                s.line(&pos_line);
+            }
+            let o = run_go(&mut s, "go depth 4", Plan::virtual_rate(0), &none);
+            s.quit();
+            o
+        };
+        let (kept, resent) = (run(false), run(true));
+        println!("go depth 4 after the interrupted search: {:?} {:?}; the same after sending the position again: {:?} {:?}", kept.score, kept.best, resent.score, resent.best);
+        if kept.score != resent.score {
+            rep.report("deeper_go_after_interruption_differs_from_the_same_engine_given_the_position_again".to_string(), json!({"kind": "interrupt_history", "position": pos_line, "depth": depth, "poll_index": k}));
+        }
+        println!("replay: {} violating case(s) reproduced", rep.violation_count());
+        let mut cov = Coverage::new();
+        cov.states = 1;
+        return finish(&rep, Tier::Quick, cov, started);
+    }
     if case["kind"] == "interrupt_after_stray" {
         let other = "position fen 4k3/8/8/8/8/8/4P3/4K3 w - - 0 1";
         let stray: Vec<GateAction> = match case["stray_index"].as_u64().unwrap_or(0) {
